@@ -12,6 +12,8 @@ Specification rules, evaluated on the implementation's own observation (font des
   and POST = PRE, bytes included.  Features: the kinds that apply (`fontinfo-angle` when the only reason is a
   font info that passes `validate`).
 * `refusal-variant`: a reported refusal variant is one of the kinds that apply.
+* `inplace-save-fails-on-store` (round 6): an in-place save to which no refusal kind applies ends in a panic the model does
+  not predict or in `InvalidStoreEntry` (the lazy data was readable when the call started and is gone now).
 * `store-files-kept`: after a successful save every store entry is a file under `T/data` / `T/images` with
   the bytes it had (for a lazy entry: the bytes on disk before the call), and nothing else is there.
 -/
@@ -87,6 +89,12 @@ def run (inp obs : List String) : Verdict :=
   let s4 := if kf.isEmpty then [] else
     [(if f.data.root == t || f.images.root == t || splitPath (field obs "SRC") == t then "inplace-keeps-disk-files:"
       else "loaded-store-files-saved:") ++ ",".intercalate kf]
+  -- the second sentence of the property, for ANY outcome: when the target is the directory the font was loaded from and
+  -- no refusal kind applies (every lazy cell was readable and valid when the call started), the save does not end in a
+  -- store failure - a panic the model does not predict, or an InvalidStoreEntry
+  let inpl := t ≠ [] && (splitPath (field obs "SRC") == t || f.data.root == t || f.images.root == t)
+  let s5 := if inpl && app.isEmpty && ((obsClass r == "panic" && resClass mr != "panic") || (isErr && variant == "InvalidStoreEntry"))
+    then ["inplace-save-fails-on-store:" ++ (if r = "panic" then "panic" else "InvalidStoreEntry")] else []
   let inplace := f.data.root == t && t ≠ []
   let tags :=
     ["pre" ++ field inp "pre", "res-" ++ obsClass r] ++
@@ -94,10 +102,13 @@ def run (inp obs : List String) : Verdict :=
     (if inplace then ["inplace"] else []) ++
     (if fieldNat inp "load" = 1 then ["loaded"] else ["api-built"]) ++
     (if fieldNat inp "sabot" ≠ 0 then ["sabot" ++ field inp "sabot"] else []) ++
+    (if field inp "sab" ≠ "" then ["sab"] else []) ++ (if fieldNat inp "retry" ≠ 0 then ["retry"] else []) ++
+    (if fieldNat inp "tsp" ≠ 0 then ["tsp" ++ field inp "tsp"] else []) ++
+    (if fieldNat inp "stores" ≥ 4 then ["sizes"] else []) ++
     (if field inp "e" ≠ "" then ["edited"] else []) ++
     (if !app.isEmpty || inplace then ["nt"] else [])
   { agree := okClass && okTree,
-    spec := s1 ++ s2 ++ s2b ++ s3 ++ s4,
+    spec := s1 ++ s2 ++ s2b ++ s3 ++ s4 ++ s5,
     tags := tags,
     model := if okClass && okTree then resClass mr else
       s!"model-res={resClass mr} impl-res={obsClass r} tree: {if okTree then "same" else firstDiff mList oListM}" }
